@@ -20,6 +20,9 @@
 #ifndef MON_CTRL
 #define MON_CTRL 2
 #endif
+#ifndef MON_BUFSET
+#define MON_BUFSET 0
+#endif
 
 namespace mon
 {
@@ -68,7 +71,100 @@ namespace mon
    template< typename Rule > struct ctlA : std::conditional_t< ( MON_CTRL & 2 ) != 0, control_impl_unwind< Rule, 0, ( MON_CTRL & 1 ) != 0 >, control_impl< Rule, 0, ( MON_CTRL & 1 ) != 0, false > > {};
    template< typename Rule > struct ctlB : std::conditional_t< ( MON_CTRL & 2 ) != 0, control_impl_unwind< Rule, 1, ( MON_CTRL & 1 ) != 0 >, control_impl< Rule, 1, ( MON_CTRL & 1 ) != 0, false > > {};
 
-#if defined( MON_TREE )
+#if defined( MON_ANA )
+}  // namespace mon
+#include <tao/pegtl/contrib/analyze.hpp>
+namespace mon
+{
+   template< typename G >
+   long analyze_entry()
+   {
+      return long( pegtl::analyze< G >( -1 ) );
+   }
+#define MON_ANALYZE_ENTRY( G ) &mon::analyze_entry< G >
+#else
+#define MON_ANALYZE_ENTRY( G ) nullptr
+#endif
+
+#if defined( MON_BUF )
+}  // namespace mon
+#include <cstdio>
+#include <fstream>
+namespace mon
+{
+   // plain recording actions for the input-class comparison (no frame monitor: pointers into a buffer_input move on discard)
+   template< int Kind, int Vid > struct bact_impl {};
+   template< int Vid > struct bact_impl< ref::A_APPLY, Vid >
+   {
+      template< typename AI, typename... S >
+      static void apply( const AI& in, S&&... /*unused*/ ) { const auto p = in.position(); on_buf_action( Vid, ref::A_APPLY, p.byte, in.size(), p.line, p.column ); }
+   };
+   template< int Vid > struct bact_impl< ref::A_APPLY0, Vid >
+   {
+      template< typename... S >
+      static void apply0( S&&... /*unused*/ ) { on_buf_action( Vid, ref::A_APPLY0, 0, 0, 0, 0 ); }
+   };
+   template< int Vid > struct bact_impl< ref::A_VETO, Vid >
+   {
+      template< typename AI, typename... S >
+      static bool apply( const AI& in, S&&... /*unused*/ ) { const auto p = in.position(); on_buf_action( Vid, ref::A_VETO, p.byte, in.size(), p.line, p.column ); return !on_buf_veto( Vid, p.byte, in.size() ); }
+   };
+   constexpr int bkind( int k ) { return ( k == ref::A_APPLY || k == ref::A_APPLY0 || k == ref::A_VETO ) ? k : ( k == ref::A_VETO0 ? ref::A_APPLY0 : ( k >= ref::A_THROW ? ref::A_APPLY : 0 ) ); }
+   template< typename Rule > struct actBuf : bact_impl< bkind( kind_of_vid_c( rid< Rule >::v ) ), rid< Rule >::v > {};
+
+   using mem_eager_t = pegtl::memory_input< pegtl::tracking_mode::eager, eol_t, std::string >;
+   using mem_lazy_t = pegtl::memory_input< pegtl::tracking_mode::lazy, eol_t, std::string >;
+
+   template< typename G, typename In >
+   void run_on( In& in, runres& rs )
+   {
+      try {
+         const bool r = pegtl::parse< G, actBuf >( in );
+         rs.st = r ? 1 : 0;
+         rs.end_byte = in.byte();
+      }
+      catch( ... ) {
+         classify_current_exception( rs );
+      }
+   }
+
+   // input classes: 0 memory eager (baseline) 1 memory lazy 2 buffer Chunk A 3 buffer Chunk B 4 string_input 5 read_input 6 mmap_input 7 file_input 8 argv_input 9 istream_input 10 cstream_input
+#if MON_BUFSET == 0
+   constexpr std::size_t chunk_a = 1, chunk_b = 3;
+#else
+   constexpr std::size_t chunk_a = 64, chunk_b = 64;
+#endif
+   template< typename G >
+   void run_entry( const runreq& rq, runres& rs )
+   {
+      const std::size_t n = std::size_t( rq.e - rq.b );
+      switch( rq.combo ) {
+         case 0: { mem_eager_t in( rq.b, rq.e, "x" ); run_on< G >( in, rs ); return; }
+#if MON_BUFSET == 0
+         case 1: { mem_lazy_t in( rq.b, rq.e, "x" ); run_on< G >( in, rs ); return; }
+         case 2: { pegtl::buffer_input< sched_reader, eol_t, std::string, chunk_a > in( "x", rq.maximum, rq.b, n, rq.sched ); run_on< G >( in, rs ); return; }
+         case 3: { pegtl::buffer_input< sched_reader, eol_t, std::string, chunk_b > in( "x", rq.maximum, rq.b, n, rq.sched ); run_on< G >( in, rs ); return; }
+#else
+         case 2: { pegtl::buffer_input< sched_reader, eol_t, std::string, chunk_a > in( "x", rq.maximum, rq.b, n, rq.sched ); run_on< G >( in, rs ); return; }
+         case 4: { pegtl::string_input< pegtl::tracking_mode::eager, eol_t, std::string > in( std::string( rq.b, n ), "x" ); run_on< G >( static_cast< mem_eager_t& >( in ), rs ); return; }
+         case 5: { pegtl::read_input< pegtl::tracking_mode::eager, eol_t > in( rq.path, "x" ); run_on< G >( static_cast< mem_eager_t& >( in ), rs ); return; }
+         case 6: { pegtl::mmap_input< pegtl::tracking_mode::eager, eol_t > in( rq.path, "x" ); run_on< G >( static_cast< mem_eager_t& >( in ), rs ); return; }
+         case 7: { pegtl::file_input< pegtl::tracking_mode::eager, eol_t > in( rq.path, "x" ); run_on< G >( static_cast< mem_eager_t& >( in ), rs ); return; }
+         case 8: {
+            std::string arg( rq.b, n );
+            char* argv[] = { const_cast< char* >( "prog" ), arg.data(), nullptr };
+            pegtl::argv_input< pegtl::tracking_mode::eager, eol_t > in( argv, 1, "x" );
+            run_on< G >( static_cast< mem_eager_t& >( in ), rs );
+            return;
+         }
+         case 9: { std::ifstream f( rq.path, std::ios::binary ); pegtl::istream_input< eol_t, 64 > in( f, rq.maximum, "x" ); run_on< G >( in, rs ); return; }
+         case 10: { std::FILE* f = std::fopen( rq.path, "rb" ); if( !f ) { rs.st = 7; return; } { pegtl::cstream_input< eol_t, 64 > in( f, rq.maximum, "x" ); run_on< G >( in, rs ); } std::fclose( f ); return; }
+#endif
+         default: rs.st = -1; return;
+      }
+   }
+   inline const config CONFIG = { "buf", MON_VARIANT, false, MON_EOL, 0, false, false, 0, false, true, MON_BUFSET };
+#elif defined( MON_TREE )
 }  // namespace mon
 #include <tao/pegtl/contrib/parse_tree.hpp>
 namespace mon
@@ -165,6 +261,10 @@ namespace mon
          classify_current_exception( rs );
       }
    }
+#if defined( MON_ANA )
+   inline const config CONFIG = { "ana", MON_VARIANT, MON_LAZY != 0, MON_EOL, MON_CTRL, false, false, 0, true };
+#else
    inline const config CONFIG = { "mon", MON_VARIANT, MON_LAZY != 0, MON_EOL, MON_CTRL, false };
+#endif
 #endif
 }  // namespace mon
